@@ -7,7 +7,7 @@ import numpy as np
 import translate_hc
 from common import LEAN, REPO, R, Ro, Cxo, fl
 
-LEAN_MODULES = ["PyomaVerif.Props.C09", "PyomaVerif.Mutants.C09", "PyomaVerif.Props.C09C18", "PyomaVerif.Props.C09All", "PyomaVerif.Props.C09Stored", "PyomaVerif.Props.C09Run"]
+LEAN_MODULES = ["PyomaVerif.Props.C09", "PyomaVerif.Mutants.C09", "PyomaVerif.Props.C09C18", "PyomaVerif.Props.C09All", "PyomaVerif.Props.C09Stored", "PyomaVerif.Props.C09Run", "PyomaVerif.Props.C09RunLink"]
 THEOREMS = [
     # C09 for all six classes as ONE theorem over the list (program, required fields, which flags exist)
     "PV.C09All.C09_seq_all",
@@ -79,6 +79,10 @@ THEOREMS = [
     "PV.C09Run.classProgs_check",
     "PV.C09Run.C09_lrun_all",
     "PV.C09Run.CritL_iff",
+    # ... and, under the contract that the recorded MPC/MPD decide the library's criteria, returns the very tables of runOf (C09All)
+    "PV.C09RunLink.crit_eq",
+    "PV.C09RunLink.C09_lrun_is_runOf",
+    "PV.C09RunLink.ex_contract",
 ]
 RULE = (
     "translator: the hard-criteria statements of the six run() bodies are regenerated into Lean on every run and the "
